@@ -93,6 +93,19 @@ def is_transparent(callee):
     return any(r.match(callee) for r in _TRANSPARENT)
 
 
+def _fold_bin(op, a, b):
+    """Arithmetic on two integer literals is that literal (named constants, `N - 1`); anything else stays symbolic."""
+    if a[0] == "const" and b[0] == "const" and isinstance(a[1], int) and isinstance(b[1], int) and \
+            not isinstance(a[1], bool) and not isinstance(b[1], bool):
+        if op in ("Add", "AddUnchecked"):
+            return ("const", a[1] + b[1])
+        if op in ("Sub", "SubUnchecked"):
+            return ("const", a[1] - b[1])
+        if op in ("Mul", "MulUnchecked"):
+            return ("const", a[1] * b[1])
+    return ("bin", op, a, b)
+
+
 class Origins:
     """Flow-insensitive may-origin analysis for one body."""
 
@@ -146,7 +159,14 @@ class Origins:
                 nm = e["name"] or str(e["f"])
                 label = f"{pending_dc}.{nm}" if pending_dc else nm
                 pending_dc = None
-                cur = {self._field(t, label) for t in cur}
+                nxt = set()
+                for t in cur:
+                    r = self._payload_of_agg(t, label)
+                    if r is None:
+                        nxt.add(self._field(t, label))
+                    else:
+                        nxt |= r
+                cur = nxt
                 continue
             if "idx" in e:
                 ks = self.of_local(e["idx"])
@@ -163,7 +183,32 @@ class Origins:
                 continue
         return cur
 
+    _PAYLOAD_OF = {
+        "Some.0": ("std::option::Option::Some", "std::option::Option::None"),
+        "Ok.0": ("std::result::Result::Ok", "std::result::Result::Err"),
+        "Continue.0": ("std::result::Result::Ok", "std::result::Result::Err"),
+        "Err.0": ("std::result::Result::Err", "std::result::Result::Ok"),
+    }
+
+    def _payload_of_agg(self, t, label):
+        """Payload projection applied to a *known* Option/Result aggregate (an `Ok(x)` built in this body or in an
+        inlined helper and then taken apart again, e.g. by `?`): the payload itself; the other variant is infeasible."""
+        pair = self._PAYLOAD_OF.get(label)
+        if pair is None or t[0] != "agg":
+            return None
+        if t[1] == pair[0] and len(t[2]) == 1:
+            return set(t[2][0])
+        if t[1] == pair[1]:
+            return set()
+        return None
+
     def _field(self, t, label):
+        # (value, overflowed) pair of a checked operation on two literals: `N - 1` for a named constant N
+        if t[0] == "bin" and t[1].endswith("WithOverflow") and t[2][0] == "const" and t[3][0] == "const" and \
+                isinstance(t[2][1], int) and isinstance(t[3][1], int) and label in ("0", "1"):
+            v = _fold_bin(t[1][:-len("WithOverflow")], t[2], t[3])
+            if v[0] == "const" and -(2 ** 31) <= v[1] < 2 ** 31:
+                return v if label == "0" else ("const", 0)
         # transparent payloads of Option / Result / ControlFlow
         if label in ("Some.0", "Ok.0", "Err.0", "Continue.0", "Break.0"):
             return t
@@ -254,7 +299,7 @@ class Origins:
         if k == "binop":
             A = self.of_operand(rv["a"], depth)
             B = self.of_operand(rv["b"], depth)
-            return {("bin", rv["op"], a, b2) for a in A for b2 in B}
+            return {_fold_bin(rv["op"], a, b2) for a in A for b2 in B}
         if k == "unop":
             A = self.of_operand(rv["a"], depth)
             if rv["op"] == "PtrMetadata":
